@@ -151,8 +151,8 @@ def shard(ctx):
     def body(case):
         iso3, options = case
         run_case(ctx, iso3, options, "c04 s%d n%d" % (ctx.shard, ctx.evaluations))
-    drive(ctx, case_strategy(), body, 110 if thorough else 7, shrink=False, tag="runs", count=False)
-    model.run_fixed(ctx, model.extreme_cases(), lambda iso, o, k: run_case(ctx, iso, o, "c04x %s" % iso))
+    drive(ctx, case_strategy(), body, 110 if thorough else 20, shrink=False, tag="runs", count=False)
+    model.run_fixed(ctx, model.extreme_cases_wide(rotate=True), lambda iso, o, k: run_case(ctx, iso, o, "c04x %s" % iso))
     if thorough:
         for i, iso in enumerate(model.iso3_list()):
             if i % ctx.nshards != ctx.shard:
